@@ -63,10 +63,10 @@ C13_OPS = [
     "to_dict", "from_strings", "to_str_list", "parse", "write_file", "read_file", "tl_or", "tl_sub", "tl_and", "construct",
 ]
 # queries: named by C13's statement ("query"), not by its operation list; they run in C13 sessions too
-C13_QUERY_OPS = ["compound_purity", "c_vars", "tl_vars", "c_hash", "compound_misc", "compound_file", "contains_behavior", "evaluate", "is_empty", "contains_environment", "contains_implementation", "vertices",
+C13_QUERY_OPS = ["compound_purity", "c_vars", "tl_vars", "c_hash", "compound_misc", "compound_file", "write_file_mixed", "contains_behavior", "evaluate", "is_empty", "contains_environment", "contains_implementation", "vertices",
                  "compound_from_strings", "compound_merge", "compound_le", "c_eq", "tl_eq", "c_str"]
 # further public operations in C14's quantifier
-C14_EXTRA_OPS = ["plot_assumptions", "plot_guarantees", "c_vars", "tl_vars", "compound_misc", "compound_file", "contains_behavior", "evaluate", "is_empty", "compound_from_strings", "compound_merge", "compound_le",
+C14_EXTRA_OPS = ["plot_assumptions", "plot_guarantees", "c_vars", "tl_vars", "compound_misc", "compound_file", "write_file_mixed", "contains_behavior", "evaluate", "is_empty", "compound_from_strings", "compound_merge", "compound_le",
                  "vertices", "contains_environment", "contains_implementation", "validate_dict", "c_eq", "tl_eq", "c_str", "c_hash"]
 
 
@@ -135,6 +135,11 @@ def call(name: str, a: Dict[str, Any]) -> Any:  # noqa: WPS212, WPS231
         return fileio.write_contracts_to_file(a["contracts"], a["names"], a["file_name"], a["machine"])
     if name == "read_file":
         return fileio.read_contracts_from_file(a["file_name"])
+    if name == "write_file_mixed":
+        # a plain and a compound contract in one file; with machine=True the writer documents ValueError for the compound one
+        c1 = PolyhedralIoContractCompound.from_strings(**a["c1"])
+        objs = [a["self"], c1] if a["plain_first"] else [c1, a["self"]]
+        return fileio.write_contracts_to_file(objs, ["plain", "k"] if a["plain_first"] else ["k", "plain"], a["file_name"], a["machine"])
     if name == "tl_or":
         return a["self"] | a["other"]
     if name == "tl_sub":
@@ -303,7 +308,7 @@ def gen_tl(rs, names: List[str], n: Optional[int] = None, must: Optional[List[st
     terms = [gen_term(rs, names, must) for _ in range(n)]
     if shapes and terms and rs.random() < 0.45:
         # adversarial shapes: duplicates, parallel rows, opposite rows, boxes
-        kind = rs.choice(["dup", "parallel", "opposite", "box", "scaled", "difference", "difference", "difference", "corner", "single", "near", "partial_parallel", "ladder", "ladder", "fork", "fork", "fork", "fork", "tight_contradiction", "tight_contradiction", "near_parallel", "near_parallel"])
+        kind = rs.choice(["dup", "parallel", "opposite", "box", "scaled", "difference", "difference", "difference", "corner", "single", "near", "partial_parallel", "ladder", "ladder", "fork", "fork", "fork", "fork", "tight_contradiction", "tight_contradiction", "near_parallel", "near_parallel", "ring", "ring", "extreme", "extreme", "extreme"])
         t = rs.choice(terms)
         cf = {k: float.fromhex(v[1]) for k, v in t["T"]}
         c0 = float.fromhex(t["c"][1])
@@ -338,6 +343,35 @@ def gen_tl(rs, names: List[str], n: Optional[int] = None, must: Optional[List[st
                     terms.insert(0, lit_term({r_: 1.0}, float(rs.choice([1, 2, 5]))))
                 rs.shuffle(terms) if False else None
                 return {"TL": terms}
+        elif kind == "ring":
+            # an ordering cycle p1 <= p2 <= p3 (<= p4) <= p1 (feasible: all equal), listed BEFORE its way out p_last <= e1 (<= e2),
+            # and a row that bounds p1 by something outside: substitution tactics that walk two-variable rows can circle
+            k_r = min(len(names), rs.choice([3, 3, 4]))
+            if k_r >= 3:
+                ring = rs.sample(names, k_r)
+                rows = [lit_term({p_: 1.0, q_: -1.0}, float(rs.choice([0, 0, 0, 1]))) for p_, q_ in zip(ring, ring[1:] + ring[:1])]
+                extra = [n_ for n_ in names if n_ not in ring]
+                if extra and rs.random() < 0.7:
+                    rows.append(lit_term({ring[-1]: 1.0, extra[0]: -1.0}, 0.0))
+                    if len(extra) > 1 and rs.random() < 0.5:
+                        rows.append(lit_term({extra[0]: 1.0, extra[1]: -1.0}, float(rs.choice([0, 2]))))
+                head = lit_term({ring[0]: 1.0, extra[-1]: -1.0}, 0.0) if extra and rs.random() < 0.6 else lit_term({ring[0]: 1.0}, float(rs.choice([1, 5])))
+                rows = [head] + rows if rs.random() < 0.5 else rows + [head]
+                if rs.random() < 0.7:
+                    return {"TL": (terms[:1] if rs.random() < 0.3 else []) + rows}
+                terms.extend(rows)
+        elif kind == "extreme":
+            # legal floats at the ends of the range: quotients of coefficients underflow to zero or overflow to inf, so a variable
+            # can vanish from (or poison) a row while a tactic is rewriting it
+            if len(names) >= 2:
+                p_, q_ = rs.sample(names, 2)
+                big, small = rs.choice([(1e200, 1e-200), (1e160, 1e-170), (1e300, 1.0), (1.0, 1e-300), (1e200, 1e200)])
+                terms.append(lit_term({p_: big * rs.choice([1.0, -1.0]), q_: small * rs.choice([1.0, -1.0])}, float(rs.choice([0, 0, 1]))))
+                others = [n_ for n_ in names if n_ not in (p_, q_)]
+                if others and rs.random() < 0.6:
+                    terms.append(lit_term({q_: 1.0, others[0]: -1.0}, 0.0))
+                if rs.random() < 0.5:
+                    terms.append(lit_term({p_: float(rs.choice([1, -1]))}, float(rs.choice([1, 2]))))
         elif kind == "ladder":
             # an ordering chain p1 <= p2 <= p3 (<= p4) with a dead end at the top, plus a second row bounding p1 some other way:
             # recursive substitution tactics have to back out of the dead end and try the next candidate
@@ -699,6 +733,24 @@ def _lit(x: Any) -> Dict:
     return {"lit": cn.canon(x)}
 
 
+def _extreme_row_vars(tl: Dict) -> List[str]:
+    for t_c in tl.get("TL", []):
+        mags = [abs(float.fromhex(v[1])) for _k, v in t_c["T"] if isinstance(v, list) and v[0].startswith("float")]
+        if len(mags) >= 2 and any(m > 1e100 or 0 < m < 1e-100 for m in mags):
+            return [k for k, _v in t_c["T"] if isinstance(k, str)]
+    return []
+
+
+def _ordering_rows(tl: Dict) -> int:
+    n = 0
+    for t_c in tl.get("TL", []):
+        if len(t_c["T"]) == 2:
+            (_k1, v1), (_k2, v2) = t_c["T"]
+            if float.fromhex(v1[1]) == -float.fromhex(v2[1]):
+                n += 1
+    return n
+
+
 def gen_step(rs, view: View, allowed_ops: List[str], weights: Optional[Dict[str, float]] = None) -> Dict:  # noqa: WPS231, WPS212
     w = [((weights or {}).get(o, 1.0)) for o in allowed_ops]
     name = rs.choices(allowed_ops, w)[0]
@@ -856,14 +908,36 @@ def gen_step(rs, view: View, allowed_ops: List[str], weights: Optional[Dict[str,
         A["self"] = {"clone": ci}
         step["dst"] = dstC
     elif name in ("elim_refine", "elim_relax"):
+        r_el = rs.random()
+        ext_vars: List[str] = []
+        if deg is None and rs.random() < (0.6 if any(_extreme_row_vars(view.pool[s_]) for s_ in ls) else 0.35):
+            # prefer a list that is rich in ordering rows (a*p - a*q <= c): chains, forks, ladders and rings live there, and the
+            # substitution tactics only have something to walk when most of what they mention is eliminated
+            rich = [s_ for s_ in ls if _ordering_rows(view.pool[s_]) >= 3]
+            ext = [s_ for s_ in ls if _extreme_row_vars(view.pool[s_])]
+            if ext and (not rich or rs.random() < 0.5):
+                li = rs.choice(ext)
+                ext_vars = _extreme_row_vars(view.pool[li])
+            elif rich:
+                li = rs.choice(rich)
+                if rs.random() < 0.6:
+                    r_el = 0.7
         vs = view.tl_vars(view.pool[li])
         cvs = view.tl_vars(view.pool[lj])
         elim = _subset(rs, vs, 0.4) or (vs[:1] if vs else [rs.choice(NAMES)])
-        r_el = rs.random()
         if r_el < 0.15:
             elim = elim + _subset(rs, cvs, 0.3)
         elif r_el < 0.3:
             elim = list(vs) + _subset(rs, cvs, 0.5)  # more eliminated variables than usable context rows
+        elif r_el < 0.42:
+            # every variable of one wide row that the context also mentions: the context-reduction tactics (1 and 5) then
+            # have to solve a system in two or three unknowns at once
+            wide = [t_c for t_c in view.pool[li]["TL"] if len(t_c["T"]) >= 2]
+            if wide:
+                row = rs.choice(wide)
+                both = [k_c for k_c, _ in row["T"] if isinstance(k_c, str) and k_c in cvs]
+                if len(both) >= 2:
+                    elim = both
         if r_el > 0.92:
             elim = [rs.choice([n_ for n_ in NAMES + EXTRA_NAMES if n_ not in vs] or NAMES)]  # nothing mentions it
         elif 0.6 < r_el <= 0.8:
@@ -896,6 +970,9 @@ def gen_step(rs, view: View, allowed_ops: List[str], weights: Optional[Dict[str,
                 elim = [v_ for v_ in chainv if v_ not in kept_anchor]
         if deg is not None and li == deg and deg_zero:
             elim = list(dict.fromkeys(deg_zero + (elim if rs.random() < 0.5 else [])))  # eliminate what cancelled
+        if ext_vars and r_el < 0.8:
+            # both variables of a row whose coefficients sit at opposite ends of the float range
+            elim = list(dict.fromkeys(ext_vars + _subset(rs, [v_ for v_ in vs if v_ not in ext_vars], 0.3)))
         A["self"] = {"slot": li}
         A["ctx"] = {"slot": lj}
         A["vars"] = _lit([Var(x) for x in dict.fromkeys(elim)])
@@ -1020,7 +1097,7 @@ def gen_step(rs, view: View, allowed_ops: List[str], weights: Optional[Dict[str,
     elif name in ("contains_environment", "contains_implementation"):
         A["self"] = {"slot": ci}
         A["component"] = {"slot": li}
-    elif name in ("compound_from_strings", "compound_merge", "compound_le", "compound_misc", "compound_file", "compound_purity"):
+    elif name in ("compound_from_strings", "compound_merge", "compound_le", "compound_misc", "compound_file", "compound_purity", "write_file_mixed"):
         def comp():  # noqa: WPS430
             iv = rs.choice(NAMES[:3])
             ov = rs.choice(NAMES[3:6])
@@ -1057,6 +1134,13 @@ def gen_step(rs, view: View, allowed_ops: List[str], weights: Optional[Dict[str,
             A["c1"] = _lit(comp())
             A["self"] = {"slot": ci}
             A["file_name"] = _lit("comp.json")
+        elif name == "write_file_mixed":
+            A["c1"] = _lit(comp())
+            A["self"] = {"slot": ci}
+            # mostly onto a file that already holds records: a rejected write must leave them as they were
+            A["file_name"] = _lit(rs.choice(sorted(view.files) or ["a.json"]) if rs.random() < 0.8 else rs.choice(["a.json", "b.json"]))
+            A["machine"] = _lit(rs.random() < 0.6)
+            A["plain_first"] = _lit(rs.random() < 0.5)
         else:
             A["c1"] = _lit(comp())
             A["c2"] = _lit(comp())
